@@ -24,7 +24,12 @@ RULE = ('random rasters up to 8x8 (plus 1xN / Nx1 / single cell): zone ids from 
         'that have no valid cell (all NaN/inf/nodata), negative-only values and zones whose max / min is 0. Dtypes: every pair '
         'of zones dtype x values dtype over float64/float32/int8/16/32/64/uint8/16/32/64; shapes include 1x1, 1xN, Nx1; a stream '
         'with zone ids above 2**24 and above 2**53 (Python ints, adjacent ids) on int64/uint64/uint32/int32/float rasters; '
-        'zone_ids also empty. Named hard cases: zone whose cells are all nodata/NaN, last zone, one-cell zones, all zones non-finite. '
+        'zone_ids also empty. Appended theme streams: reversed (a[::-1, ::-1]) and non-writeable arrays; zone_ids as tuple / '
+        'numpy arrays of int16/int64/float32/float64, nodata 0.0 and as numpy scalars of another dtype; stats_funcs [] and {}; '
+        'float16 values; non-integer values (0.1, 2**-30, 2**-120, 1e100, 2**24+1, 1+1e-9; oracle only) with nodata equal to / '
+        'one ulp around a cell value in the cell dtype; degenerate rasters (1x1, 2x2, all-NaN values, all-equal, single valid '
+        'cell, all zones non-finite); call sequences (same call twice, inputs unchanged, calls on rasters derived by isel / '
+        'copy+assign_coords / astype / reversed isel, with descending / fractional / 1e6-spaced coords and attrs). Named hard cases: zone whose cells are all nodata/NaN, last zone, one-cell zones, all zones non-finite. '
         'A case is non-trivial when at least one finite zone has a valid cell; cases are distinct by their JSON encoding.')
 TRUSTED = [
     'np.argsort / fancy indexing / np.unique / boolean masking are modelled (stable insertion sort by zone with NaN last, '
@@ -47,6 +52,7 @@ ASSUMPTIONS = [
     'zone_ids contains no NaN in the theorem C02_stats_spec (NaN ids are exercised by the correspondence only)',
     'the source carries fixes/C03-dask-sum-squares-overflow.diff and fixes/C03-dask-zone-ids-float-compare.diff (Dask stream; keys '
     'dask-sum-squares-int-overflow / dask-zone-ids-compared-as-float otherwise)',
+    'float16 ZONES are outside the domain (numba cannot compile _strides for float16: NotImplementedError); float16 values are covered',
     'user reducers are permutation invariant (np.argsort does not fix the order of the cells inside a zone)',
 ]
 PARTIAL = [
@@ -192,6 +198,11 @@ def layout_array(data, dtype, layout):
         big = np.full((a.shape[0] * 2, a.shape[1] * 2 + 1), 77, dtype=a.dtype)
         big[::2, 1::2] = a
         a = big[::2, 1::2]
+    elif layout == 'R':                      # reversed view a[::-1, ::-1] (negative strides)
+        a = np.ascontiguousarray(a[::-1, ::-1])[::-1, ::-1]
+    elif layout == 'W':                      # non-writeable buffer
+        a = np.ascontiguousarray(a)
+        a.flags.writeable = False
     return a
 
 
@@ -206,6 +217,9 @@ def fits(x, dtype):
         return float(np.array(x, dtype=dtype)) == x
     info = np.iinfo(dtype)
     return x == int(x) and info.min <= int(x) <= info.max
+
+
+LAYOUTS6 = ['C', 'F', 'T', 'S', 'R', 'W']
 
 
 def pick_layout(rng):
@@ -297,6 +311,7 @@ def exact_stat(name, xs):
 
 
 EXACT = {'count', 'sum', 'min', 'max', 'double_sum', 'ptp'}
+TOL = {'float32': 1e-4, 'float16': 3e-2}        # mean/std/var are computed in the values' own float width
 
 
 def stat_matches(name, got, xs, vdtype):
@@ -308,7 +323,7 @@ def stat_matches(name, got, xs, vdtype):
     exp = exact_stat(name, xs)
     if name in EXACT:
         return Fraction(got) == exp
-    tol = 1e-4 if vdtype == 'float32' else 1e-9
+    tol = TOL.get(vdtype, 1e-9)
     e = math.sqrt(exp) if name == 'std' else float(exp)
     return abs(got - e) <= tol * (1.0 + abs(e))
 
@@ -330,6 +345,8 @@ def reducer_of(case, col):
 
 
 def stats_arg(case):
+    if case.get('empty_dict') and not case['stats']:
+        return {}
     if case.get('funcs'):
         return {col: USER_FUNCS[case['funcs'][col]] for col in case['stats']}
     if all(n in ALL_STATS for n in case['stats']):
@@ -585,10 +602,27 @@ def gen_dask_case(rng, i):
                 zchunks=zch, vchunks=vch)
 
 
+def ids_arg(ids, how):
+    """the same list of ids as a list (default), tuple, or numpy array of a given dtype"""
+    if ids is None or not how or how == 'list':
+        return ids
+    if how == 'tuple':
+        return tuple(ids)
+    return np.array(ids, dtype=how.split(':')[1])
+
+
+def nodata_arg(nd, how):
+    if nd is None or not how:
+        return nd
+    return np.dtype(how).type(nd)
+
+
 def run_impl(case):
     from xrspatial.zonal import stats
     za = layout_array(case['zones'], case['zdtype'], case.get('zlayout', 'C'))
     va = layout_array(case['values'], case['vdtype'], case.get('vlayout', 'C'))
+    if case.get('ids_as') or case.get('nodata_as'):
+        case = dict(case, zone_ids=ids_arg(case['zone_ids'], case.get('ids_as')), nodata=nodata_arg(case['nodata'], case.get('nodata_as')))
     if case.get('backend', 'numpy') == 'dask':
         import dask
         import dask.array as da
@@ -713,7 +747,7 @@ def close_q(name, got, q, vdtype):
         return False
     if name in EXACT:
         return Fraction(got) == q
-    tol = 1e-4 if vdtype == 'float32' else 1e-9
+    tol = TOL.get(vdtype, 1e-9)
     e = math.sqrt(q) if name == 'std' else float(q)
     return abs(got - e) <= tol * (1.0 + abs(e))
 
@@ -766,6 +800,216 @@ def compare_model(ctx, case, out, mo, s):
 def nontrivial(case):
     nd = None if case['nodata'] is None else float(case['nodata'])
     return any(zone_valid_values(case['zones'], case['values'], z, nd) for z in finite_zone_ids(case['zones']))
+
+
+# --------------------------------------------------------------------------- appended "theme" streams (round-5 audit)
+ODD64 = [0.1, 0.5, 2.0 ** -30, 2.0 ** -120, 1e100, float(2 ** 24 + 1), 1.0 + 1e-9, 1.0, -0.1, 3.0e9, float(2 ** 53 + 2)]
+ODD32 = [0.1, 0.5, 2.0 ** -30, 2.0 ** -120, 1e30, float(2 ** 24 + 2), 1.0 + 2.0 ** -20, 1.0, -0.1, 3.0e9]
+
+
+def gen_theme_case(rng, i, backend='numpy'):
+    """one appended case per audit theme (i selects the theme); see RULE"""
+    theme = ['layout', 'containers', 'nostats', 'float16', 'oddfloat', 'degenerate'][i % 6]
+    case = gen_dask_case(rng, i) if backend == 'dask' else gen_case(rng, True, i)
+    case.pop('funcs', None)
+    if any(s not in ALL_STATS for s in case['stats']):
+        case['stats'] = ['sum', 'count']
+    case['theme'] = theme
+    rows, cols = len(case['zones']), len(case['zones'][0])
+    if theme == 'layout':
+        case['zlayout'], case['vlayout'] = rng.choice(LAYOUTS6), rng.choice(['R', 'W', 'R', 'W', 'F', 'S'])
+        if rng.random() < 0.5:
+            case['zlayout'], case['vlayout'] = case['vlayout'], case['zlayout']
+    elif theme == 'containers':
+        present = finite_zone_ids(case['zones'])
+        ids = [z for z in present if float(z) == int(z) and abs(z) < 100] or [1.0]
+        ids = rng.sample(ids, rng.randint(1, len(ids))) + ([11.0] if rng.random() < 0.4 else [])
+        how = rng.choice(['tuple', 'ndarray:int64', 'ndarray:float32', 'ndarray:float64', 'ndarray:int16', 'tuple'])
+        if how in ('ndarray:int16', 'ndarray:int64') or rng.random() < 0.5:
+            ids = [int(z) for z in ids]
+        if rng.random() < 0.1 and backend != 'dask':
+            ids = []
+        rng.shuffle(ids)
+        case['zone_ids'], case['ids_as'] = ids, how
+        if backend == 'dask' and not any(z in present for z in ids):
+            case['zone_ids'] = None
+            case.pop('ids_as')
+        u = rng.random()
+        vals = [v for row in case['values'] for v in row if isfin(v)]
+        if u < 0.3:
+            case['nodata'] = 0.0                                     # falsy float
+        elif vals:
+            case['nodata'] = rng.choice(vals)
+            case['nodata_as'] = rng.choice(['float32', 'float64', 'int64', 'int8' if -100 < case['nodata'] < 100 else 'int64'])
+    elif theme == 'nostats':
+        case['stats'] = []
+        if backend != 'dask' and rng.random() < 0.5:
+            case['return_type'] = 'xarray.DataArray'
+        if rng.random() < 0.5:
+            case['empty_dict'] = True if backend != 'dask' else False
+    elif theme == 'float16':
+        case['vdtype'] = 'float16'        # numba cannot compile _strides for float16 ZONES (NotImplementedError): values only
+        case['values'] = gen_values(rng, rows, cols, 'float16')
+        case['nodata'] = None if rng.random() < 0.5 else 0
+    elif theme == 'oddfloat':
+        vd = rng.choice(['float64', 'float32'])
+        pool = ODD64 if vd == 'float64' else ODD32
+        alph = rng.sample(pool, rng.randint(2, 5))
+        values = [[rng.choice(alph) if rng.random() > 0.08 else NAN for _ in range(cols)] for _ in range(rows)]
+        values = to_floats(np_array(values, vd))                    # the logical values are the cast ones
+        flat = [v for row in values for v in row if isfin(v)]
+        case.update(values=values, vdtype=vd, stats=rng.sample(['count', 'min', 'max', 'sum', 'mean'], rng.randint(1, 4)),
+                    oracle_only=True, nodata=None, return_type='pandas.DataFrame')
+        case.pop('nodata_as', None)
+        if flat and rng.random() < 0.7:
+            v0 = rng.choice(flat)
+            t = np.dtype(vd).type
+            # nodata equal to a cell value, or one ulp below / above it, in the cells' OWN dtype
+            nd = rng.choice([t(v0), np.nextafter(t(v0), t(np.inf)), np.nextafter(t(v0), t(-np.inf))])
+            case['nodata'], case['nodata_as'] = float(nd), vd
+    else:
+        kind = rng.choice(['1x1', '2x2', 'all-nan-values', 'all-equal', 'single-valid-cell', 'all-zones-nonfinite'])
+        case['degenerate'] = kind
+        if kind in ('1x1', '2x2'):
+            n = 1 if kind == '1x1' else 2
+            case['zones'] = [row[:n] for row in (case['zones'] * 2)[:n]]
+            case['values'] = [row[:n] for row in (case['values'] * 2)[:n]]
+            if len(case['zones'][0]) < n:
+                case['zones'] = [[1.0] * n for _ in range(n)]
+                case['values'] = [[float(rng.randint(0, 5)) for _ in range(n)] for _ in range(n)]
+        fl = case['vdtype'].startswith('float')
+        rows, cols = len(case['zones']), len(case['zones'][0])
+        if kind == 'all-nan-values':
+            case['vdtype'] = 'float64'
+            case['values'] = [[NAN] * cols for _ in range(rows)]
+        elif kind == 'all-equal':
+            v0 = case['values'][0][0] if isfin(case['values'][0][0]) else 3.0
+            case['values'] = [[v0] * cols for _ in range(rows)]
+            z0 = case['zones'][0][0] if isfin(case['zones'][0][0]) else 1.0
+            case['zones'] = [[z0] * cols for _ in range(rows)]
+        elif kind == 'single-valid-cell':
+            case['vdtype'] = 'float32'
+            case['values'] = [[NAN] * cols for _ in range(rows)]
+            case['values'][rng.randrange(rows)][rng.randrange(cols)] = float(rng.randint(-5, 5))
+            case['nodata'] = None
+        elif kind == 'all-zones-nonfinite' and backend != 'dask':
+            case['zdtype'] = 'float32'
+            case['zones'] = [[rng.choice([NAN, INF, -INF]) for _ in range(cols)] for _ in range(rows)]
+        if backend == 'dask':
+            case['zchunks'] = [composition(rng, rows, 2), composition(rng, cols, 2)]
+            case['vchunks'] = case['zchunks']
+    if backend == 'dask':
+        present = finite_zone_ids(case['zones'])
+        if not present:
+            case['zones'][0][0] = 1.0
+        elif case['zone_ids'] is not None and not any(exact(z) in present for z in case['zone_ids']):
+            case['zone_ids'] = None
+            case.pop('ids_as', None)
+    return case
+
+
+def oracle_loose(ctx, case, out):
+    """non-integer values (0.1, 2**-120, 1e100, ...): count/min/max exact, sum/mean to rounding relative to sum(|x|)"""
+    nd = case['nodata']
+    exp_rows = requested_rows(case['zones'], case['zone_ids'])
+    if [r['zone'] for r in out] != exp_rows:
+        ctx.violation('oracle', 'stats: rows are zones %r, expected %r' % ([r['zone'] for r in out], exp_rows), case)
+        return False
+    tol = 1e-5 if case['vdtype'] == 'float32' else 1e-12
+    for r in out:
+        xs = zone_valid_values(case['zones'], case['values'], r['zone'], nd)
+        for st in case['stats']:
+            g = r[st]
+            if not xs:
+                ok = math.isnan(g)
+            elif st in ('count', 'min', 'max'):
+                ok = not math.isnan(g) and Fraction(g) == exact_stat(st, xs)
+            else:
+                scale = float(sum(abs(x) for x in xs)) / (len(xs) if st == 'mean' else 1)
+                ok = not math.isnan(g) and abs(g - float(exact_stat(st, xs))) <= tol * scale + 1e-300
+            if not ok:
+                ctx.violation('oracle', 'stats: zone %r %s = %r but its valid cells are %r (nodata %r as %s)' % (
+                    r['zone'], st, g, [float(x) for x in xs], nd, case.get('nodata_as')), dict(case, zone=r['zone'], stat=st, got=g))
+                return False
+    return True
+
+
+def _nan_equal(a, b):
+    a, b = np.asarray(a), np.asarray(b)
+    return a.shape == b.shape and a.dtype == b.dtype and bool(np.all((a == b) | ((a != a) & (b != b))))
+
+
+def run_sequence(ctx, case):
+    """call sequences: the same call twice, inputs (data, coords, attrs) unchanged, then the call on rasters DERIVED from
+    the processed ones at the xarray level (isel, astype, copy, assign_coords) - all against the same oracle"""
+    from xrspatial.zonal import stats
+    rows, cols = len(case['zones']), len(case['zones'][0])
+    ys = [10.5 - 0.25 * r for r in range(rows)]             # descending, fractional, non-zero origin
+    xs = [-3.0e6 + 1.0e6 * c for c in range(cols)]          # negative, large spacing, x != y spacing
+    attrs = {'res': (1.0e6, 0.25), 'crs': 'EPSG:4326', 'nodata': -1}
+    z = xr.DataArray(layout_array(case['zones'], case['zdtype'], case.get('zlayout', 'C')), dims=['lat', 'lon'],
+                     coords={'lat': ys, 'lon': xs}, attrs=dict(attrs), name='zones')
+    v = xr.DataArray(layout_array(case['values'], case['vdtype'], case.get('vlayout', 'C')), dims=['lat', 'lon'],
+                     coords={'lat': ys, 'lon': xs}, attrs=dict(attrs), name='values')
+    snap = [(a.data.copy(), {k: c.values.copy() for k, c in a.coords.items()}, dict(a.attrs), a.dtype, a.dims) for a in (z, v)]
+
+    def call(zz, vv, sub):
+        res = stats(zones=zz, values=vv, zone_ids=sub['zone_ids'], stats_funcs=stats_arg(sub), nodata_values=sub['nodata'],
+                    return_type=sub['return_type'])
+        if sub['return_type'] == 'pandas.DataFrame':
+            return [dict((c, num(res[c].iloc[i]) if c == 'zone' else float(res[c].iloc[i])) for c in res.columns) for i in range(len(res))]
+        return [[float(x) for x in res.data[k].ravel().tolist()] for k in range(len(sub['stats']))]
+
+    def unchanged(step):
+        for a, (d, cs, at, dt, dm) in zip((z, v), snap):
+            if not (_nan_equal(a.data, d) and dict(a.attrs) == at and a.dtype == dt and a.dims == dm and
+                    all(np.array_equal(a.coords[k].values, cs[k]) for k in cs) and set(a.coords) == set(cs)):
+                ctx.violation('oracle', 'stats modified its input %s (data / coords / attrs) during %s' % (a.name, step),
+                              dict(case, step=step))
+                return False
+        return True
+
+    try:
+        out1 = call(z, v, case)
+        if not unchanged('the first call'):
+            return
+        out2 = call(z, v, case)
+        if not unchanged('the repeated call'):
+            return
+        if json_key(out1) != json_key(out2):
+            ctx.violation('oracle', 'stats: the same call repeated gives a different table', dict(case, first=out1, second=out2))
+            return
+        if not oracle(ctx, case, out1):
+            return
+        # derived rasters
+        r0, c0 = (1 if rows > 1 else 0), (1 if cols > 1 else 0)
+        derived = [
+            ('isel', z.isel(lat=slice(r0, None), lon=slice(c0, None)), v.isel(lat=slice(r0, None), lon=slice(c0, None)), r0, c0),
+            ('copy+assign_coords', z.copy().assign_coords(lat=ys[::-1]), v.copy(deep=True).assign_coords(lon=[x + 7 for x in xs]), 0, 0),
+            ('astype(float64)', z.astype('float64'), v.astype('float64'), 0, 0),
+            ('reversed isel', z.isel(lat=slice(None, None, -1)), v.isel(lat=slice(None, None, -1)), -1, 0),
+        ]
+        for name, zz, vv, rr, cc in derived:
+            if rr == -1:
+                sub = dict(case, zones=case['zones'][::-1], values=case['values'][::-1])
+            else:
+                sub = dict(case, zones=[row[cc:] for row in case['zones'][rr:]], values=[row[cc:] for row in case['values'][rr:]])
+            if name.startswith('astype'):
+                sub = dict(sub, zdtype='float64', vdtype='float64')
+            n0 = len(ctx.violations)
+            oracle(ctx, sub, call(zz, vv, sub))
+            for vio in ctx.violations[n0:]:
+                vio['what'] = '[call on rasters derived by %s from already-processed ones] %s' % (name, vio['what'])
+                vio['replay'] = dict(case, derived=name)
+            if not unchanged('the call on the %s rasters' % name):
+                return
+    except Exception as e:      # noqa
+        ctx.violation('oracle', 'stats raised %s: %s in a call sequence' % (type(e).__name__, e), case)
+
+
+def json_key(o):
+    import json
+    return json.dumps(o, sort_keys=True, default=str)
 
 
 def _eval_dask(case):
@@ -829,6 +1073,34 @@ def run(ctx, n=None, n_dask=None):
             oracle(ctx, case, out)
             line, s = model_line(case)
             pending.append((line, s, case, out))
+    # ---- appended theme streams (layouts R/W, id containers / numpy-scalar nodata, no statistics, float16 values,
+    #      non-integer values with nodata one ulp around a cell, degenerate rasters, call sequences) ----
+    if n_dask is None:
+        nt, ntd, nseq = (150, 18, 36) if ctx.quick() else (3000, 240, 600)
+        tcases = [gen_theme_case(rng, i) for i in range(nt)]
+        tdask = [gen_theme_case(rng, i, 'dask') for i in range(ntd)]
+        with mp.get_context('fork').Pool(min(6, int(os.environ.get('VERIF_POOL', '6')))) as pool:
+            tdouts = pool.map(_eval_dask, tdask, chunksize=2)
+        for case, out in list(zip(tcases, [None] * len(tcases))) + list(zip(tdask, tdouts)):
+            ctx.case(case, nontrivial=nontrivial(case))
+            ctx.count('theme/%s/%s%s' % (case['backend'], case['theme'], '/' + case['degenerate'] if case.get('degenerate') else ''))
+            if out is None:
+                out = _eval_dask(case)
+            if isinstance(out, tuple):
+                ctx.violation('oracle', 'stats (%s, theme %s) raised %s' % (case['backend'], case['theme'], out[1]), case)
+                continue
+            if case.get('oracle_only'):
+                oracle_loose(ctx, case, out)
+                continue
+            oracle(ctx, case, out)
+            line, s = model_line(case)
+            pending.append((line, s, case, out))
+        for i in range(nseq):
+            case = gen_case(rng, True, i)
+            case['theme'] = 'sequence'
+            ctx.case(case, nontrivial=nontrivial(case))
+            ctx.count('theme/numpy/sequence(repeat, inputs unchanged, derived rasters, coords+attrs)')
+            run_sequence(ctx, case)
     if ctx.model is not None and pending:
         outs = ctx.model.run([p[0] for p in pending])
         for (line, s, case, out), mo in zip(pending, outs):
@@ -851,10 +1123,15 @@ def replay_case(ctx, case):
     for k in ('zones', 'values', 'zone_ids', 'nodata'):
         case[k] = unjson(case.get(k))
     ctx.case(case)
+    for k in ('derived', 'step', 'first', 'second'):
+        case.pop(k, None)
+    if case.get('theme') == 'sequence':
+        run_sequence(ctx, case)
+        return
     try:
         out = run_impl(case)
     except Exception as e:
         ctx.violation('oracle', 'stats raised %s: %s' % (type(e).__name__, e), case,
                       key='neg-inf-zone-shifts-slices' if has_neg_inf_zone(case) else None)
         return
-    oracle(ctx, case, out)
+    (oracle_loose if case.get('oracle_only') else oracle)(ctx, case, out)
